@@ -550,7 +550,7 @@ theorem limitsInv_connect (b : Bus) (c uid : Nat) (gids : List Nat) (canFd : Boo
 
 
 def actG (b : Bus) (c : ConnId) (nm : Bytes) (x : Conn) : Conn :=
-  if x.id == c then { x with name := some nm, policy := b.policy.clientRules x.uid x.gids false } else x
+  if x.id == c then { x with name := some nm, policy := b.policy.clientPolicy b.limits.maxFdsDefault x.uid x.gids false } else x
 
 theorem activate_conns (b : Bus) (c : ConnId) (nm : Bytes) : (activate b c nm).conns = b.conns.map (actG b c nm) := rfl
 
@@ -695,7 +695,7 @@ theorem limits_leaves : Leaves (keeps LimitsInv) where
   expire := fun b h => ⟨h.ids, h.conns, fun _ => Nat.zero_le _, h.completed, h.per_user⟩
   expireSome := fun b f h => ⟨h.ids, h.conns, fun x => Nat.le_trans (callsOf_filter _ _ _) (h.pending x), h.completed, h.per_user⟩
   setPolicy := fun b p h => by
-    refine limitsInv_map (b := b) (fun x => if x.name.isSome then { x with policy := p.clientRules x.uid x.gids false } else x) rfl rfl rfl ?_ ?_ ?_ ?_ h
+    refine limitsInv_map (b := b) (fun x => if x.name.isSome then { x with policy := p.clientPolicy b.limits.maxFdsDefault x.uid x.gids false } else x) rfl rfl rfl ?_ ?_ ?_ ?_ h
     · intro x; (try dsimp only); split <;> rfl
     · intro x; (try dsimp only); split <;> rfl
     · intro x; (try dsimp only); split <;> rfl
